@@ -46,7 +46,9 @@ func buildStore(c Config, dir *migrate.MemDir, baselineFirst bool) *mighelp.Stor
 		if r.Partial {
 			rev.Applied = 1
 			rev.PartialHashes = []string{"h1:" + partialHash(r.V)}
-			rev.Error = "boom"
+			if !r.Died {
+				rev.Error = "boom"
+			}
 		}
 		if i == 0 && baselineFirst && !r.Partial {
 			rev.Type = migrate.RevisionTypeBaseline
@@ -305,13 +307,14 @@ func configs(n int, f func(Config)) {
 					revs = append(revs, RevSpec{V: univ[i]})
 				}
 			}
-			for partial := 0; partial < 2; partial++ {
-				if partial == 1 && len(revs) == 0 {
+			for partial := 0; partial < 3; partial++ {
+				if partial >= 1 && len(revs) == 0 {
 					continue
 				}
 				rv := append([]RevSpec(nil), revs...)
-				if partial == 1 {
+				if partial >= 1 {
 					rv[len(rv)-1].Partial = true
+					rv[len(rv)-1].Died = partial == 2
 				}
 				for order := 0; order < 3; order++ {
 					opts := []struct {
@@ -343,7 +346,7 @@ func Run(r *report.Run) {
 	if r.Tier == "thorough" {
 		n = 5
 	}
-	r.Rule = fmt.Sprintf("version universe 1..%d; every directory (each version absent / migration file / checkpoint file) x every revision table (any subset of the universe fully applied, last one optionally partial 1/2) x exec-order {linear, linear-skip, non-linear} x {no option, allow-dirty, baseline=v for every v} x {clean, dirty}; real Executor.Pending on MemDir compared with the set-based reference model refPending; then ExecuteN(n) for every n on the real Executor; plus a BFS (depth 4, thorough 5) over CLI histories on a real SQLite file with the alphabet {add file, add file whose 2nd statement fails, add out-of-order file, apply, apply 1, apply --exec-order non-linear / linear-skip, set 2, set 4, fix the failing file, remove the newest file}: in the reached state `migrate status` must report the pending/out-of-order files of the reference model fed with the actual revision rows, `migrate apply [n]` must execute exactly the statements the decision implies (journal table written by the statements), and after `migrate set v` nothing up to v may be pending; non-trivial = configuration with a non-empty directory and a decision other than plain 'all files'; distinct by construction", n)
+	r.Rule = fmt.Sprintf("version universe 1..%d; every directory (each version absent / migration file / checkpoint file) x every revision table (any subset of the universe fully applied, last one optionally partial 1/2, recorded with or without an error text) x exec-order {linear, linear-skip, non-linear} x {no option, allow-dirty, baseline=v for every v} x {clean, dirty}; real Executor.Pending on MemDir compared with the set-based reference model refPending; then ExecuteN(n) for every n on the real Executor; plus a BFS (depth 4, thorough 5) over CLI histories on a real SQLite file with the alphabet {add file, add file whose 2nd statement fails, add checkpoint file, add out-of-order file, apply, apply 1, apply --exec-order non-linear / linear-skip, set 2, set 4, fix the failing file, remove the newest file}: in the reached state `migrate status` must report the pending/out-of-order files of the reference model fed with the actual revision rows, `migrate apply [n]` must execute exactly the statements the decision implies (journal table written by the statements), and after `migrate set v` nothing up to v may be pending; non-trivial = configuration with a non-empty directory and a decision other than plain 'all files'; distinct by construction", n)
 	r.Assumptions = []string{
 		"versions are fixed-width digit strings so name order and version order coincide",
 		"every file has two statements; a partial revision has Applied=1 of 2 with the executor's own partial hash",
